@@ -655,6 +655,65 @@ def c17_case(rec, hub, rng, tier, which):
                             break
 
 
+def two_objects_case(rec, hub, rng, tier, monitor, prop):
+    """Two live stocks of the same class over the SAME dimensions, created with `lifetime_model=<class>` (or with instances), given
+    different parameters and drivers, with their operations interleaved: each must come out as if it were alone in the process."""
+    fd = hub.fd
+    cfg, _lm0 = make_solvable(fd, rng, tier)
+    if cfg is None:
+        return
+    cn, solver, attr, kind = [("InflowDrivenDSM", None, "inflow", "positive"), ("StockDrivenDSM", "manual", "stock", "stock"), ("StockDrivenDSM", "lapack", "stock", "stock")][int(rng.integers(0, 3))]
+    by_class = bool(rng.random() < 0.6)
+    lm_cls = getattr(fd, cfg["model"])
+    objs = []
+    for j in range(2):
+        kw = dict(dims=cfg["dims"], time_letter=cfg["tl"], name=f"obj{j}")
+        if cn == "StockDrivenDSM":
+            kw["solver"] = solver
+        kw["lifetime_model"] = lm_cls if by_class else lm_cls(dims=cfg["dims"], time_letter=cfg["tl"], inflow_at=cfg["inflow_at"], n_pts_per_interval=cfg["n_pts"])
+        with quiet():
+            o = getattr(fd, cn)(**kw)
+        if by_class:
+            o.lifetime_model.inflow_at, o.lifetime_model.n_pts_per_interval = cfg["inflow_at"], cfg["n_pts"]
+        told = {k: np.array(v, dtype=float) * ((1.0 + 0.4 * j) if k in ("mean", "weibull_scale") else 1.0) for k, v in cfg["truth"].items()}
+        objs.append(dict(obj=o, told=told, drive=driver_values(rng, cfg["shape"], kind), prepared=False))
+    steps = [(j, w) for j in range(2) for w in ("prms", "driver")]
+    steps = [steps[q] for q in rng.permutation(len(steps))] + [(int(q), "compute") for q in rng.permutation(2)]
+    if rng.random() < 0.5:  # a second round with changed parameters for one of them, computes again in random order
+        steps += [(int(rng.integers(0, 2)), "prms2")] + [(int(q), "compute") for q in rng.permutation(2)]
+    base = f"{cn}/{solver}|{cfg['model']}|by_class={by_class}"
+    for j, what in steps:
+        e = objs[j]
+        o = e["obj"]
+        with quiet():
+            if what in ("prms", "prms2"):
+                if what == "prms2":
+                    e["told"] = {k: v * (1.2 if k in ("mean", "weibull_scale") else 1.0) for k, v in e["told"].items()}
+                o.lifetime_model.set_prms(**{k: np.array(v) for k, v in e["told"].items()})
+            elif what == "driver":
+                getattr(o, attr).values[...] = e["drive"]
+            else:
+                try:
+                    o.compute()
+                except Exception as ex:
+                    rec.violation(monitor, "two-objects:compute-raised", {"exc": repr(ex)[:200], "class": cn, "by_class": by_class}, prop=prop)
+                    return
+                with hub.pause():
+                    twin = getattr(fd, cn)(dims=cfg["dims"], time_letter=cfg["tl"], **({"solver": solver} if solver else {}),
+                                           lifetime_model=lm_cls(dims=cfg["dims"], time_letter=cfg["tl"], inflow_at=cfg["inflow_at"], n_pts_per_interval=cfg["n_pts"], **{k: np.array(v) for k, v in e["told"].items()}),
+                                           **{attr: fd.StockArray(dims=cfg["dims"], values=np.array(e["drive"], dtype=float))})
+                    twin.compute()
+                    A, B = S.results_of(o), S.results_of(twin)
+                rec.event(monitor, sig=f"two-objects|{base}", cls=f"two-live-objects|{cn}{('/' + solver) if solver else ''}|{'class' if by_class else 'instance'}")
+                for q in A:
+                    if np.any(~np.isfinite(A[q])) or np.any(~np.isfinite(B[q])):
+                        continue
+                    ok, rel = allclose_scaled(A[q], B[q], 1e-10)
+                    if not ok:
+                        rec.violation(monitor, f"stock-differs-from-the-same-stock-alone-while-another-stock-of-its-shape-is-alive:{cn}", dict(quantity=q, rel_diff=rel, model=cfg["model"], lifetime_model_given_as="class" if by_class else "instance", steps=[f"{a}:{b}" for a, b in steps]), prop=prop)
+                        return
+
+
 def _last_change(hist):
     for op in reversed(hist[:-1]):
         if op.startswith("set_prms") or op == "driver":
@@ -700,22 +759,40 @@ def c17_system_case(rec, hub, rng, tier, i):
             out.append(fd.StockDefinition(**kw))
         return out
 
+    all_first = bool(rng.random() < 0.4)  # the user's compute() first prepares ALL stocks (drivers, parameters), then computes them one after the other
+    own = float(rng.random() < 0.6)
+    own_factor = {sd["name"]: 1.0 + 0.25 * k_ * own for k_, sd in enumerate(sdefs)}  # each stock its own lifetimes (most cases)
+    if rng.random() < 0.35 and len(sdefs) >= 2 and sdefs[0]["lm"]:
+        sdefs[1] = dict(sdefs[0], name=sdefs[1]["name"])  # two stocks of the same class, model class and dimensions
+
+    def prms_for(s, name, P):
+        lmn = type(s.lifetime_model).__name__
+        mean = P["mean"] * own_factor[name]
+        if lmn == "WeibullLifetime":
+            return dict(weibull_shape=P["spread"] * 4.0 + 0.8, weibull_scale=mean)
+        if lmn == "FixedLifetime":
+            return dict(mean=mean)
+        return dict(mean=mean, std=mean * P["spread"])
+
     class LoopMFA(fd.MFASystem):
         def compute(self):
-            for name, s in self.stocks.items():
+            def prepare(name, s):
                 if isinstance(s, fd.StockDrivenDSM):
                     s.stock[...] = self.parameters["drive"] * 10.0
                 else:
                     s.inflow[...] = self.parameters["drive"]
                 if hasattr(s, "lifetime_model"):
-                    lmn = type(s.lifetime_model).__name__
-                    if lmn == "WeibullLifetime":
-                        s.lifetime_model.set_prms(weibull_shape=self.parameters["spread"] * 4.0 + 0.8, weibull_scale=self.parameters["mean"])
-                    elif lmn == "FixedLifetime":
-                        s.lifetime_model.set_prms(mean=self.parameters["mean"])
-                    else:
-                        s.lifetime_model.set_prms(mean=self.parameters["mean"], std=self.parameters["mean"] * self.parameters["spread"])
-                s.compute()
+                    s.lifetime_model.set_prms(**prms_for(s, name, self.parameters))
+
+            if all_first:
+                for name, s in self.stocks.items():
+                    prepare(name, s)
+                for name, s in self.stocks.items():
+                    s.compute()
+            else:
+                for name, s in self.stocks.items():
+                    prepare(name, s)
+                    s.compute()
 
     def build(values):
         processes = fd.make_processes(["sysenv", "use"])
@@ -750,6 +827,32 @@ def c17_system_case(rec, hub, rng, tier, i):
             with hub.pause():
                 fresh = build(sc)
                 fresh.compute()
+                # and each stock on its own, outside any system: built directly, with its own lifetime-model object
+                alone = {}
+                for sd in sdefs:
+                    ls_ = live.stocks[sd["name"]]
+                    kw_ = dict(dims=dims, time_letter="t")
+                    if sd["lm"]:
+                        kw_["lifetime_model"] = getattr(fd, sd["lm"])(dims=dims, time_letter="t", **{k_: (v_.values.copy() if isinstance(v_, fd.FlodymArray) else v_) for k_, v_ in ((k2, (v2 if not isinstance(v2, fd.FlodymArray) else v2.cast_to(dims))) for k2, v2 in prms_for(ls_, sd["name"], live.parameters).items())})
+                    if sd["solver"]:
+                        kw_["solver"] = sd["solver"]
+                    if sd["cls"] == "StockDrivenDSM":
+                        kw_["stock"] = fd.StockArray(dims=dims, values=sc["drive"] * 10.0)
+                    else:
+                        kw_["inflow"] = fd.StockArray(dims=dims, values=sc["drive"].copy())
+                    one_ = getattr(fd, sd["cls"])(**kw_)
+                    one_.compute()
+                    alone[sd["name"]] = S.results_of(one_)
+        for sd in sdefs:
+            a0 = S.results_of(live.stocks[sd["name"]])
+            rec.event(M17S, sig=f"alone|{sd['cls']}/{sd['solver']}|{sd['lm']}|all_first={all_first}", cls=f"scenario-vs-stock-alone|{sd['cls']}|{'prepare-all-then-compute' if all_first else 'one-by-one'}")
+            for q in a0:
+                if np.any(~np.isfinite(a0[q])) or np.any(~np.isfinite(alone[sd["name"]][q])):
+                    continue
+                ok, rel = allclose_scaled(a0[q], alone[sd["name"]][q], 1e-11)
+                if not ok:
+                    rec.violation(M17S, f"stock-in-a-system-differs-from-the-same-stock-computed-alone:{sd['cls']}", dict(quantity=q, scenario=k, stock=sd, rel_diff=rel, prepare_all_first=all_first, n_stocks=len(sdefs)))
+                    break
         for sd in sdefs:
             a, b = S.results_of(live.stocks[sd["name"]]), S.results_of(fresh.stocks[sd["name"]])
             rec.event(M17S, sig=f"{sd['cls']}/{sd['solver']}|{sd['lm']}|{gclass}|sc={k}", cls=f"scenario|{sd['cls']}{('/' + sd['solver']) if sd['solver'] else ''}|{sd['lm']}",
